@@ -423,12 +423,15 @@ def enum_switch(shard, nshards, tier):
             for order in (0, 1):
                 for B in ("none", "matrix", "half"):
                     for seed in ((11, 12, 13) if tier == "thorough" else (11,)):
-                        n = 4 if kind in ("mbk", "stiff") else 3
-                        case = {"kind": kind, "n": n, "seed": seed, "norm": norm, "h": 0.5, "order": order, "B": B,
-                                "ncolB": 2, "half_with_B": False}
-                        if k % nshards == shard:
-                            yield case
-                        k += 1
+                        # h = 0.5: ||A|| above ||Ah||;  h = 40: ||A||_1 itself below the switch while ||Ah||_1 is
+                        # above it (the switch is on ||Ah||_1: slow dynamics, long step)
+                        for h in (0.5, 40.0):
+                            n = 4 if kind in ("mbk", "stiff") else 3
+                            case = {"kind": kind, "n": n, "seed": seed, "norm": norm, "h": h, "order": order,
+                                    "B": B, "ncolB": 2, "half_with_B": False}
+                            if k % nshards == shard:
+                                yield case
+                            k += 1
 
 
 PARTS = [
